@@ -100,6 +100,7 @@ pub mod instr_io;
 pub mod c03;
 pub mod c16;
 pub mod c01;
+pub mod c01_flat;
 pub mod c19;
 
 pub fn all() -> Vec<Box<dyn Prop>> {
